@@ -942,6 +942,7 @@ func c02reinit(rep *vh.Report, r *vh.RNG) {
 		{"message 0 replaced in place by another definition of id 0", func() { d.Messages[0] = twin0.Msg }, []*msgInfo{twin0, rds}},
 	}
 	for si, st := range steps {
+		si := si
 		st.change()
 		tr = fake.NewTransport(fmt.Sprintf("reinit%d", si))
 		node.Endpoints = []gomavlib.EndpointConf{gomavlib.EndpointCustom{ReadWriteCloser: tr}}
@@ -963,6 +964,10 @@ func c02reinit(rep *vh.Report, r *vh.RNG) {
 					g.frames = append(g.frames, ev.Message())
 				case *gomavlib.EventParseError:
 					g.perr++
+				}
+				if si == 1 {
+					// an application that takes a moment over every event: refusals are reported to it all the same, one by one
+					time.Sleep(500 * time.Microsecond)
 				}
 				if len(g.frames)+g.perr >= nProbe {
 					break
